@@ -119,8 +119,8 @@ def run(ctx: Ctx, rep: Report) -> None:
 
             return atom
 
-        for req_len in (1, 2, 3):
-            for count in (req_len - 1, req_len, req_len + 1):
+        for req_len in ((1, 2, 3, 4, 5, 8, 16) if rep.tier == "thorough" else (1, 2, 3)):
+            for count in ((0, req_len - 1, req_len, req_len + 1, 2 * req_len + 1) if rep.tier == "thorough" else (req_len - 1, req_len, req_len + 1)):
                 env0 = concrete_env(atoms_for(req_len, count), lambda e: defs.expand(e, stop=res_names))
 
                 def env(expr: ast.expr) -> Optional[bool]:
